@@ -1,0 +1,29 @@
+//go:build verif
+
+// Contracts for the verification machinery in /verif (comment-only, built only with -tags verif).
+
+package controllers
+
+// ---- C18: configuration loading is deterministic ----
+
+// nameOf(x): the object name GetName reports for the value x (a function of the value, not of where it is stored).
+//@ ufun nameOf(T) string
+//@ func (PT).GetName
+//@   pure
+//@   ensures result == nameOf(*self)
+
+//@ func sortedCopy$1
+//@   requires 0 <= i && i < len(res) && 0 <= j && j < len(res)
+//@   ensures result == (nameOf(res[i]) < nameOf(res[j]))
+
+// sortedCopy returns a permutation of toSort in non-decreasing name order (with unique names that value
+// is the same for every listing order).
+//@ func sortedCopy
+//@   ensures len(result) == len(toSort)
+//@   ensures [sorted] forall a int, b int :: 0 <= a && a < b && b < len(result) ==> !(nameOf(result[b]) < nameOf(result[a]))
+//@   ensures [perm] forall x T :: (x in result) == old(x in toSort)
+//@   ensures result == nil || fresh(result)
+//@   call sort.Slice with less(a, b) := nameOf(a) < nameOf(b)
+//@   assert before sort.Slice: [copied] forall x T :: (x in res) == old(x in toSort)
+//@   assert after sort.Slice: [permuted] forall x T :: (x in res) == pre(x in res)
+//@   modifies fresh []T
